@@ -10,7 +10,7 @@ use serde_json::{json, Value};
 
 pub struct C20;
 
-pub const CONVS: [&str; 6] = ["gds->raw", "raw->gds", "raw->proto", "lef->raw->lef", "gridded->raw", "raw->lef"];
+pub const CONVS: [&str; 7] = ["gds->raw", "raw->gds", "raw->proto", "lef->raw->lef", "gridded->raw", "raw->lef", "lef->raw->proto"];
 
 /// Clock script `id`: (start instant as unix seconds, seconds added per read)
 fn clock_script(id: u64) -> (i64, i64) {
@@ -85,6 +85,14 @@ pub fn convert_here(conv: usize, vals: Vec<u64>, clock_id: u64) -> Outcome {
             2 => {
                 let lib = gen_raw(&mut t, &RawOpts { allow_path_in_abstract: true, allow_pico: false });
                 let p = lib.to_proto().map_err(|e| format!("{:?}", e))?;
+                Ok(format!("{:#?}", p))
+            }
+            6 => {
+                // chained conversions meet each other's gaps: layers created by the LEF importer carry no purpose
+                // numbers, so the protobuf exporter reports an error — which one must not depend on the hash seed
+                let l = gen_lef_for_import(&mut t);
+                let rawlib = raw::lef::LefImporter::import(&l, None).map_err(|e| format!("{:?}", e))?;
+                let p = rawlib.to_proto().map_err(|e| format!("{:?}", e))?;
                 Ok(format!("{:#?}", p))
             }
             5 => {
@@ -169,7 +177,7 @@ impl Check for C20 {
         }
     }
     fn rule(&self) -> String {
-        "One run = one conversion input drawn from the tape (run index mod 6 selects GDS->raw on importable 1-5-cell hierarchies with references/arrays/labels in either listing order; raw->GDS and raw->proto on raw libraries with 1-8 named layers, layouts, instances and abstracts whose ports and blockage maps hold 1-8 layers each; LEF->raw->LEF on macros with multi-layer, multi-port pins and obstructions; gridded->raw on 1-4 gridded cells with instances, cuts, net assignments and abstracts over a five-metal stack; raw->LEF on the same raw libraries) converted under K configurations (K=4 quick, 16 thorough): each on a fresh thread whose SipHash keys come from a drawn hash seed through the getrandom seam, with a scripted clock (fixed; +1 s per read across a year boundary; backward jumps; +1 year per read); every run also converts, on one more fresh thread with configuration 0's seed and clock, the same input twice in a row and once more after converting and dropping a different input of the same kind (history independence: stale address-keyed caches, per-map keys); 1 run in 32 also repeats configuration 0 in a separate child process (different ASLR layout / pid). Outcome (canonical dump, or error text, or panic site) must be identical across configurations; dumps keep every order that belongs to the result and sort only map-typed fields; raw->GDS dumps exclude exactly the library's and structs' dates. evaluations = conversions executed; non-trivial = dump has >= 8 lines; distinct = distinct dump digests of configuration 0.".into()
+        "One run = one conversion input drawn from the tape (run index mod 7 selects GDS->raw on importable 1-5-cell hierarchies with references/arrays/labels in either listing order; raw->GDS and raw->proto on raw libraries with 1-8 named layers, layouts, instances and abstracts whose ports and blockage maps hold 1-8 layers each; LEF->raw->LEF on macros with multi-layer, multi-port pins and obstructions; gridded->raw on 1-4 gridded cells with instances, cuts, net assignments and abstracts over a five-metal stack; raw->LEF on the same raw libraries; LEF->raw->proto, whose outcome is an error that must name the same layer every time) converted under K configurations (K=4 quick, 16 thorough): each on a fresh thread whose SipHash keys come from a drawn hash seed through the getrandom seam, with a scripted clock (fixed; +1 s per read across a year boundary; backward jumps; +1 year per read); every run also converts, on one more fresh thread with configuration 0's seed and clock, the same input twice in a row and once more after converting and dropping a different input of the same kind (history independence: stale address-keyed caches, per-map keys); 1 run in 32 also repeats configuration 0 in a separate child process (different ASLR layout / pid). Outcome (canonical dump, or error text, or panic site) must be identical across configurations; dumps keep every order that belongs to the result and sort only map-typed fields; raw->GDS dumps exclude exactly the library's and structs' dates. evaluations = conversions executed; non-trivial = dump has >= 8 lines; distinct = distinct dump digests of configuration 0.".into()
     }
     fn assumptions(&self) -> Vec<String> {
         vec![
